@@ -16,6 +16,9 @@ prop(
          "commits (each: a pure file rename in its own commit, a rename combined with one edit, or 1-3 of: add/delete/re-add file, "
          "add/modify(expr,label,annotation,for,keep_firing_for,control comment,name)/delete/duplicate/swap rule, comment-, blank-line-, "
          "quoting-, key-order- and indentation-only edits, file/disable add/remove/reorder, revert of a file to its fork-point version), "
+         "a rule-trim commit changes ONE rule only by deleting whole lines of it, nothing else in the file changing (last key, last or "
+         "only label/annotation entry, last line of a literal-block expression; or a middle line: control comment, a key followed by "
+         "others, a non-last map entry, first/middle expression line), the rule drawn uniformly over first/middle/last positions; "
          "one history in two additionally holds a directed chain on ONE file: 2-4 consecutive steps (own commits) from {pure rename, edit, "
          "exact revert of the previous edit, rename back, delete + re-add with the same content, comment/whitespace-only edit with or "
          "without revert}, placed last in half of the cases, so that files byte-identical to their base version after a non-trivial path "
